@@ -1,2 +1,11 @@
--- Root of the `PeroVerif` library: models, lemmas, property theorems, audit.
-import PeroVerif.Model.Lev
+-- Root of the `PeroVerif` library: everything the checks need, so that `lake build` pre-builds it.
+import PeroVerif.Props.C02
+import PeroVerif.Props.C03
+import PeroVerif.Props.C04
+import PeroVerif.Props.C05
+import PeroVerif.Props.C13
+import PeroVerif.Props.C14
+import PeroVerif.Props.C15
+import PeroVerif.Spec.CtcMass
+import PeroVerif.Spec.Lm
+import PeroVerif.Spec.ConfNet
